@@ -215,6 +215,8 @@ pub trait Backing: 'static {
     const SHARED_WHILE_EXCLUSIVE: bool;
     /// the backing has no realloc log of its own: the raw trace must be recorded for every property
     const NEEDS_TRACE: bool;
+    /// growth beyond `orig + 10240` is refused by a PANIC ("data too large") instead of `Err(InvalidRealloc)`
+    const LIMIT_PANICS: bool = false;
     fn create(initial: &[u8], refuse: Vec<u32>, guard: bool, end_aligned: bool) -> Option<Box<Self>>;
     /// two buffers for a swap case (C03): `A`, `B`
     fn create_pair(a: &[u8], b: &[u8], end_aligned: bool) -> Option<(Box<Self>, Box<Self>)>;
@@ -495,6 +497,142 @@ impl Backing for AcctBacking {
             pos = d + cap;
         }
         ok && now[pos..] == snap.alloc[pos..]
+    }
+    fn canary_ok(&self) -> bool {
+        true
+    }
+}
+
+// ------------------------------------------------------------------------------------------------
+// the repository's OWN test backing (`star_frame::unsize::test_helpers::TestUnderlyingData`, the store of
+// `TestByteSet`; `TestByteSet::data_mut()` is `ExclusiveWrapper::new(&test_data)`, `underlying_data()` is
+// `data[..len]`)
+
+use star_frame::unsize::TestUnderlyingData;
+
+/// `TestUnderlyingData::new(orig)` (a `Vec` of `orig + 10240` bytes), initialised the way
+/// `TestByteSet::initialize` does it. Growth past `orig + 10240` PANICS ("data too large") in this store; the
+/// case driver answers that as `err:InvalidRealloc` and ends the case (`Backing::LIMIT_PANICS`). The store's
+/// length cell is private and its `RefCell` is mutably borrowed while a top wrapper lives, so the length is
+/// followed through the realloc trace (hook H3) and the bytes are read through the pointer `data_mut`
+/// returned at creation (the `Vec` never reallocates); `data_ref` (= `underlying_data()`) is compared with
+/// the model by the shared view at the end of every case.
+pub struct TbsBacking {
+    tud: TestUnderlyingData,
+    base: *mut u8,
+    orig: usize,
+    len: Cell<usize>,
+    limit_now: Cell<bool>,
+    reallocs_now: Cell<u32>,
+    grow_calls: Cell<u32>,
+    log: RefCell<Vec<(usize, usize, bool)>>,
+}
+
+impl TbsBacking {
+    fn make(initial: &[u8]) -> Option<Box<Self>> {
+        let tud = TestUnderlyingData::new(initial.len());
+        let base = {
+            let (ptr, range, _guard) = UnsizedTypeDataAccess::data_mut(&tud).ok()?;
+            let base = ptr.cast::<u8>();
+            if range.start != base as usize || ptr.len() != initial.len() {
+                return None;
+            }
+            unsafe { std::ptr::copy_nonoverlapping(initial.as_ptr(), base, initial.len()) };
+            base
+        };
+        Some(Box::new(TbsBacking {
+            tud,
+            base,
+            orig: initial.len(),
+            len: Cell::new(initial.len()),
+            limit_now: Cell::new(false),
+            reallocs_now: Cell::new(0),
+            grow_calls: Cell::new(0),
+            log: RefCell::new(vec![]),
+        }))
+    }
+}
+
+impl Backing for TbsBacking {
+    type A = TestUnderlyingData;
+    const SHARED_WHILE_EXCLUSIVE: bool = false;
+    const NEEDS_TRACE: bool = true;
+    const LIMIT_PANICS: bool = true;
+    fn create(initial: &[u8], refuse: Vec<u32>, _guard: bool, _end_aligned: bool) -> Option<Box<Self>> {
+        if !refuse.is_empty() {
+            return None;
+        }
+        TbsBacking::make(initial)
+    }
+    fn create_pair(a: &[u8], b: &[u8], _end_aligned: bool) -> Option<(Box<Self>, Box<Self>)> {
+        TbsBacking::make(a).zip(TbsBacking::make(b))
+    }
+    fn da(&self) -> &TestUnderlyingData {
+        &self.tud
+    }
+    fn len(&self) -> usize {
+        self.len.get()
+    }
+    fn cap(&self) -> usize {
+        self.orig + MAX_INCREASE
+    }
+    fn base_addr(&self) -> usize {
+        self.base as usize
+    }
+    fn bytes(&self) -> Vec<u8> {
+        let n = self.len().min(self.cap());
+        unsafe { std::slice::from_raw_parts(self.base, n).to_vec() }
+    }
+    fn begin_op(&self) {
+        self.limit_now.set(false);
+        self.reallocs_now.set(0);
+        self.log.borrow_mut().clear();
+    }
+    fn note_trace(&self, reallocs: &[(usize, usize)]) {
+        // the store must refuse (panic) iff new_len > orig + 10240; a realloc it let through sets the length
+        let mut log = self.log.borrow_mut();
+        for (old, new) in reallocs {
+            let ok = *new <= self.cap();
+            if new > old {
+                self.grow_calls.set(self.grow_calls.get() + 1);
+                if !ok {
+                    self.limit_now.set(true);
+                }
+            }
+            if ok && new != old {
+                self.reallocs_now.set(self.reallocs_now.get() + 1);
+            }
+            if ok {
+                self.len.set(*new);
+            }
+            log.push((*old, *new, ok));
+        }
+    }
+    fn refused_now(&self) -> bool {
+        false
+    }
+    fn limit_now(&self) -> bool {
+        self.limit_now.get()
+    }
+    fn reallocs_now(&self) -> u32 {
+        self.reallocs_now.get()
+    }
+    fn grow_calls(&self) -> u32 {
+        self.grow_calls.get()
+    }
+    fn realloc_log(&self) -> Vec<(usize, usize, bool)> {
+        self.log.borrow().clone()
+    }
+    fn snapshot(&self) -> Frame {
+        Frame { alloc: unsafe { std::slice::from_raw_parts(self.base, self.cap()).to_vec() }, before: vec![], after: vec![] }
+    }
+    fn frame_ok(&self, snap: &Frame, from: usize) -> bool {
+        let from = from.min(self.cap());
+        let now = unsafe { std::slice::from_raw_parts(self.base, self.cap()) };
+        now[from..] == snap.alloc[from..]
+    }
+    fn slack_ok(&self, _snap: &Frame) -> bool {
+        true
     }
     fn canary_ok(&self) -> bool {
         true
